@@ -1334,6 +1334,8 @@ func (s *Session) binop(fr *Frame, st *State, op token.Token, a, b Val, opndT, r
 		case token.ADD:
 			r := s.uf("strcat", SInt, x, y)
 			s.assume(Eq(s.strlen(r), Add(s.strlen(x), s.strlen(y))))
+			// left cancellation: what remains of x+y after dropping len(x) characters is y
+			s.assume(Eq(s.uf("strdrop", SInt, r, s.strlen(x)), y))
 			s.assume(Ge(r, I(0)))
 			s.assume(Eq(Eq(r, I(0)), And(Eq(x, I(0)), Eq(y, I(0)))))
 			return scalar(resT, r)
